@@ -300,6 +300,7 @@ func run(r *core.Run) {
 	r.Rule = "sessions of 1–12 statements generated FROM structured descriptions (INSERT with/without column list, 1–3 rows, casts, NULLs; UPDATE; SELECT star/list/qualified/alias; RETURNING), printed in several spellings, sent over the simple or the extended protocol (text and binary parameters and results) by a fake client through the real proxyFactory.New/PgProxy to a fake database; schemas of 1–4 tables with plain, AcraStruct and AcraBlock columns (untyped, bytes, str) and an unconfigured table; non-trivial = a statement that writes or reads a protected column; distinct by schema+statement tokens; plus value-level codec ops, protocol-state scripts (pipelining, errors, Sync), generated INSERT/UPDATE statements through the MySQL query encryptor, and the regression corpus of the three repaired defects"
 	corpus(r)
 	corpusRound5(r)
+	corpusFailOpen(r)
 	valueOps(r)
 	pendingOps(r)
 	mysqlOps(r)
